@@ -272,6 +272,10 @@ def run(tier, seed):
     gen = [(i, p) for i, p in enumerate(U.enumerate_programs(2)) if i < 992 or i % (13 if tier == "quick" else 2) == seed % (13 if tier == "quick" else 2)]
     for i, p in gen:
         items.append(("uni", (p, "U#%d" % i)))
+    nstep = 19 if tier == "quick" else 2
+    for i, p in enumerate(U.enumerate_nested()):       # one block nested in another (see C01)
+        if i % nstep == seed % nstep and not U.doc_error_optional(p):
+            items.append(("uni", (p, "N#%d" % i)))
     table = {}
     stats = dict(items=len(items), accepted_unambiguous=0, rejected_ambiguous=0, rejected_unambiguous_conservative=0, accepted=0)
     for idx, r in pmap(dispatch, items, timeout=600, chunksize=8, stop=ck.enough):
